@@ -14,6 +14,8 @@ RULE = ('cases = {norm, norm(squared), each with/without an autograd-tracked cor
         'zero tensors. Oracle: dense reductions on harness-contracted arrays; bit-equality for sum/dot/bilinear on int-valued cores; norms within '
         '1e3*u*S_rep; values compared modulo size-1 modes (shape strictness of reductions is not part of C07). distinct = (op, variant, structure, '
         'subset, dtype); non-trivial = structure of order>=1 with a non-empty result; zero-tensor cases counted separately.')
+from ..hist import RULE_SUFFIX as _RS
+RULE = RULE + _RS
 ASSUMPTIONS = ['axis arguments are in-range, non-negative, sorted and match the second operand (anything else is C18)',
                'sum/dot results are compared with both sides squeezed: reduce_dims documents dropping singleton modes']
 REQUIRED_REACH = ['_tt_base:TT.norm', '_tt_base:TT.sum', '_extras:dot', '_extras:bilinear_form', '_aux_ops:bilinear_form_aux', '_tt_base:TT.reduce_dims']
